@@ -40,20 +40,30 @@ def text_fields(reply):
 
 
 def canon(reply, prefix, inf):
+    """reply with everything that legitimately differs between two runs removed: request ids, the run's key prefix, and
+    lock ids the SERVER generated (text LOCK without LOCK_ID: the id is the random request id; such an id also shows up
+    in replies that name the holder)"""
     if reply is None:
         return None
     r = json.loads(json.dumps(reply))
+    hp = prefix.encode().hex()
+
+    def gen_id(x):
+        return isinstance(x, str) and len(x) == 32 and hp not in x and x.strip("0") != ""
     if inf.get("kind") == "bin":
         r.pop("hex", None)
         r.pop("rid", None)
         if r.get("ctype") == 0:
             r.pop("init_type", None)      # carries the node's own role bits by design
+        if gen_id(r.get("lockid")):
+            r["lockid"] = "<generated>"
     else:
-        if inf.get("lid") is None and inf["op"] in ("lock", "unlock", "push") and isinstance(r.get("a"), list):
+        if isinstance(r.get("a"), list):
             a = r["a"]
             for i in range(len(a) - 1):
-                if isinstance(a[i], dict) and a[i].get("b") == "LOCK_ID":
-                    a[i + 1] = {"b": "<generated>"}
+                if isinstance(a[i], dict) and a[i].get("b") == "LOCK_ID" and isinstance(a[i + 1], dict):
+                    if (inf.get("lid") is None and inf["op"] in ("lock", "unlock", "push")) or gen_id(a[i + 1].get("b")):
+                        a[i + 1] = {"b": "<generated>"}
     return _subst(r, prefix)
 
 
